@@ -227,6 +227,13 @@ impl<'a> Minimiser<'a> {
                 }
             }
         }
+        if p.vectored {
+            let mut c = p.clone();
+            c.vectored = false;
+            if self.fails(&wrap(c.clone())) {
+                p = c;
+            }
+        }
         if !p.flips.is_empty() {
             let mut c = p.clone();
             c.flips.clear();
